@@ -21,6 +21,34 @@ pub enum Tok {
     Trunc,
 }
 
+/// the names a request asks for with requested-attributes (None: attribute absent, i.e. everything)
+pub fn requested_attrs(body: &[u8]) -> Option<Vec<String>> {
+    let tz = tokenize(body);
+    let mut out: Option<Vec<String>> = None;
+    let mut inside = false;
+    for t in &tz.toks {
+        match t {
+            Tok::Val(w) if w.name == b"requested-attributes" => {
+                inside = true;
+                out.get_or_insert_with(Vec::new).push(String::from_utf8_lossy(&w.body).to_string());
+            }
+            Tok::Val(w) if w.name.is_empty() && inside => out.as_mut().unwrap().push(String::from_utf8_lossy(&w.body).to_string()),
+            _ => inside = false,
+        }
+    }
+    out
+}
+
+/// a printer that honours requested-attributes (RFC 8011 4.2.5.1): only the named attributes of a group are
+/// returned; `all` and the group names select everything
+pub fn filter_requested(attrs: Vec<(String, crate::av::AV)>, req: &Option<Vec<String>>) -> Vec<(String, crate::av::AV)> {
+    match req {
+        None => attrs,
+        Some(names) if names.iter().any(|n| n == "all" || n == "printer-description" || n == "job-description" || n == "job-template") => attrs,
+        Some(names) => attrs.into_iter().filter(|(n, _)| names.iter().any(|x| x == n)).collect(),
+    }
+}
+
 pub fn header_bytes(ver: u16, code: u16, id: u32) -> Vec<u8> {
     let mut v = Vec::with_capacity(8);
     v.extend_from_slice(&ver.to_be_bytes());
